@@ -271,6 +271,7 @@ static std::set<int> targets_of(int kind)
     case K_LOOPEN: t.insert(O_LOOPEN); break;
     case K_LOOPCOUNT: t.insert(O_LOOPCNT); break;
     case K_HOOKSONLY: t.insert(O_HOOKSONLY); break;
+    case K_BANK: t.insert(O_LFOEN); t.insert(O_LFOFREQ); t.insert(O_CHIPTYPE); t.insert(O_VOL); break;   // the per-bank overrides return to the image's values
     default: break;
     }
     return t;
@@ -367,7 +368,7 @@ static void probe_devid(Ctx &x, const OpInfo &oi)
         bool prev_t = x.prev_kind == K_DEVID && now > 0 && (now == (int)(x.prev_arg & 0x7F) || now == (int)(x.prev_arg & 0x0F));
         x.violation(key_for(x, oi, "device-id", oi.target_devid, false, prev_t),
                     vfmt("master-volume SysEx addressed to the configured device id %d returned %d (expected 1), addressed to id %d returned %d (expected 0), the id in force is %d after %s", id, a, other, b, now, x.trail.back().c_str()));
-        if(now >= 0 && now < 16) x.m.devid = now;
+        if(now >= 0) x.m.devid = now;
     }
     int r = send_mv(x, 0x7F, 0x7F);
     if(r != 1) count("sysex_broadcast_restore_refused");
@@ -597,7 +598,7 @@ static OPN2_MIDIPlayer *build_fresh(const Model &m, Tap &tap, int order = 0)
     if(m.softPan) API("opn2_setSoftPanEnabled", opn2_setSoftPanEnabled(d, 1));
     if(m.alloc != -1) API("opn2_setChannelAllocMode", opn2_setChannelAllocMode(d, (int)m.alloc));
     if(m.arp) API("opn2_setAutoArpeggio", opn2_setAutoArpeggio(d, 1));
-    if(m.devid) API("opn2_setDeviceIdentifier", rc = opn2_setDeviceIdentifier(d, (unsigned)m.devid));
+    if(m.devid > 0 && m.devid < 16) API("opn2_setDeviceIdentifier", rc = opn2_setDeviceIdentifier(d, (unsigned)m.devid));
     (void)rc;
     return d;
 }
@@ -612,7 +613,7 @@ static bool render_fresh(const Model &m, bool audio, Render &out, int order = 0)
 }
 
 // on a mismatch: which single setting, changed in the fresh configuration, reproduces the instance under test?
-static std::string diagnose(const Model &m, const Render &under_test, bool audio, bool pcm_too)
+static std::string diagnose(const Model &m, const Render &under_test, bool audio, bool pcm_too, Model *matching = NULL)
 {
     struct Alt { const char *name; Model mm; };
     std::vector<Alt> alts;
@@ -633,7 +634,7 @@ static std::string diagnose(const Model &m, const Render &under_test, bool audio
     {
         Render r; std::string dt;
         if(!render_fresh(alts[i].mm, audio, r)) continue;
-        if(diff_render(under_test, r, pcm_too, dt).empty()) return alts[i].name;
+        if(diff_render(under_test, r, pcm_too, dt).empty()) { if(matching) *matching = alts[i].mm; return alts[i].name; }
     }
     return "";
 }
@@ -666,7 +667,8 @@ static void probe_differential(Ctx &x, const OpInfo &oi)
     if(cls.empty()) return;
     if(cls == "pcm")
     {   // inconclusive unless a setting that only the signal shows explains it
-        std::string who = diagnose(x.m, a, audio, true);
+        Model alt = x.m;
+        std::string who = diagnose(x.m, a, audio, true, &alt);
         if(who.empty())
         {
             // a reference whose last configuration step was a full set-up instead of a partial reset
@@ -684,15 +686,18 @@ static void probe_differential(Ctx &x, const OpInfo &oi)
         }
         x.violation(key_for(x, oi, who, false, false, false), vfmt("probe phrase: PCM differs from a fresh instance configured like the model (%s), register logs equal; a fresh instance with a different %s setting reproduces the instance under test; after %s",
                     detail.c_str(), who.c_str(), x.trail.back().c_str()));
+        x.m = alt;      // reported once: follow the implementation from here on
         return;
     }
-    std::string who = diagnose(x.m, a, audio, pcm_ok);
+    Model alt = x.m;
+    std::string who = diagnose(x.m, a, audio, pcm_ok, &alt);
     std::string key;
     if(oi.kind == K_BANKBAD && oi.failed && (who == "bank" || who.empty())) key = "oracle:C18:rejected-bank-replaced-bank";
     else if(!who.empty()) key = key_for(x, oi, who, false, false, false);
     else key = "oracle:C18:behaviour-differs-from-fresh:" + cls;
     x.violation(key, vfmt("probe phrase differs from a fresh instance configured like the model: %s%s; after %s (%s)", detail.c_str(),
                           who.empty() ? "" : vfmt("; a fresh instance with a different %s setting reproduces the instance under test", who.c_str()).c_str(), x.trail.back().c_str(), oi.failed ? "call failed" : "call succeeded"));
+    if(!who.empty() && who != "bank" && who != "numChips" && who != "emulator") x.m = alt;      // reported once: follow the implementation from here on
 }
 
 // ------------------------------------------------------------------------------------------------------------
@@ -929,6 +934,7 @@ static std::vector<Op> gen_history(Rng &r, int n)
     if(r.chance(0.4)) ops.push_back(mk(K_FULLBRIGHT, 1));
     if(r.chance(0.4)) ops.push_back(mk(K_PCMRATE, 1));
     for(size_t i = 0; i < ops.size(); i++) ops[i].cbprobe = ops[i].kind == K_MUSIC || r.chance(0.3);
+    ops.back().probe = true; ops.back().cbprobe = true;     // baseline: everything configured so far is in force
     while((int)ops.size() < n)
     {
         Op o = gen_op(r);
